@@ -300,6 +300,10 @@ func (a *AuthEvents) Clear() {
 	for k := range a.events {
 		delete(a.events, k)
 	}
+	// The rooms seen belong to the entries: a cleared provider is as good as a new one.
+	for k := range a.roomIDs {
+		delete(a.roomIDs, k)
+	}
 }
 
 // NewAuthEvents returns an AuthEventProvider backed by the given events. New events can be added by
